@@ -41,6 +41,9 @@ fn process_crtr_block<H: Host>(_: &mut Emulator<H>, block_data: &[u8]) {
 
 // Process ZXSTZ80REGS (Z80R) block
 fn process_z80r_block<H: Host>(emulator: &mut Emulator<H>, block_data: &[u8]) {
+    // Snapshot does not continue the instruction stream of the receiving CPU
+    emulator.cpu.reset_transient_state();
+
     // AF
     emulator
         .cpu
